@@ -182,6 +182,20 @@ def one(arg):
                 rec('fit#post.parallel_equals_sequential', dp == dfull, 'n_jobs=%d: features differing from n_jobs=1: %r' % (nj, [f for f in set(dp) | set(dfull) if dp.get(f) != dfull.get(f)]), dict(n_jobs=nj))
             except Exception as e:
                 rec('fit#post.parallel_equals_sequential', False, 'n_jobs=%d raised %s: %s' % (nj, type(e).__name__, str(e)[:150]), dict(n_jobs=nj))
+        # (3b) the same on a frame in which a block of rows misses EVERY quantitative feature (a worker must see the same rows as the sequential fit)
+        if case['quantitative']:
+            X3 = case['X'].copy(); rows = [i for i in range(len(X3)) if rng.random() < 0.15] or [0]
+            X3.iloc[rows, [X3.columns.get_loc(f) for f in case['quantitative']]] = np.nan
+            c3 = dict(case); c3['X'] = X3
+            try: dseq = digest_obj(build_with(kind, c3, cfg), X3)
+            except AssertionError: dseq = None
+            if dseq is not None:
+                FakePool.order_rng = random.Random(seed + 7)
+                try:
+                    dp = digest_obj(build_with(kind, c3, cfg, n_jobs=2), X3)
+                    rec('fit#post.parallel_equals_sequential', dp == dseq, 'rows missing every quantitative feature, n_jobs=2: features differing from n_jobs=1: %r' % ([f for f in set(dp) | set(dseq) if dp.get(f) != dseq.get(f)],), dict(n_jobs=2, all_missing_rows=rows[:20]))
+                except Exception as e:
+                    rec('fit#post.parallel_equals_sequential', False, 'rows missing every quantitative feature, n_jobs=2 raised %s: %s' % (type(e).__name__, str(e)[:150]), dict(n_jobs=2, all_missing_rows=rows[:20]))
     finally:
         unpatch(saved)
     return recs
